@@ -585,6 +585,8 @@ def machine_rule(P, r):
     if pc is None:
         raise AnalysisBroken('anchor vanished: xor_hd_decode does not classify the failure pattern')
     decoders = {1: '@decode_one_data', 2: '@decode_two_data', 3: '@decode_three_data'}
+    for dn in decoders.values():
+        P.fn(dn)                      # the arms are identified by the decoder they call: without the decoders the rule has no anchor
     dp = dec.params[-1][1]
     for name, v in sorted(enum.items(), key=lambda kv: kv[1]):
         pp = parse_pattern(name)
